@@ -3,9 +3,9 @@ from contracts.C10_polars_failure_cases import PolarsCoerceFailureCases
 
 CONTRACTS = [PolarsCoerceFailureCases]
 
-from contracts.C08_polars_column_checks import PolarsCheckNullable, PolarsCheckUnique  # noqa: E402  (the row masks of nullability / uniqueness)
+from contracts.C08_polars_column_checks import PolarsCheckNullable, PolarsCheckNullableRegex, PolarsCheckUnique  # noqa: E402  (the row masks of nullability / uniqueness)
 
-CONTRACTS += [PolarsCheckNullable, PolarsCheckUnique]
+CONTRACTS += [PolarsCheckNullable, PolarsCheckNullableRegex, PolarsCheckUnique]
 
 from contracts.C05_multiindex_validate import MultiIndexCoerceDtype  # noqa: E402  (row labels: the coerced MultiIndex keeps the data's level order)
 
